@@ -18,6 +18,9 @@ pub enum Then {
     Close,
     /// bytes that cannot continue a valid handshake
     Garbage,
+    /// a COMPLETE greeting + READY that is well-formed but must be refused (`offset % 4`: 0 =
+    /// unknown Socket-Type, 1 = ZMTP version 2.1, 2 = unknown mechanism, 3 = 256-byte identity)
+    Invalid,
 }
 
 #[derive(Debug, Clone, Serialize, Deserialize, PartialEq, Eq, Hash)]
@@ -55,6 +58,9 @@ pub fn stall_outcome(c: &StallCase) -> Outcome {
     }
     if c.stallers.iter().any(|s| s.then == Then::Close) {
         o.class("close-mid-handshake");
+    }
+    if c.stallers.iter().any(|s| s.then == Then::Invalid) {
+        o.class("complete-but-invalid-handshake");
     }
     let c2 = c.clone();
     let (r, panics) = capture_panics(|| {
@@ -104,7 +110,7 @@ pub fn stall_outcome(c: &StallCase) -> Outcome {
             for st in &c.stallers {
                 match realnet::raw_connect(&ep).await {
                     Ok(mut rc) => {
-                        let k = st.offset.min(hs.len() - 1);
+                        let k = if st.then == Then::Invalid { 0 } else { st.offset.min(hs.len() - 1) };
                         let _ = rc.write(&hs[..k]).await;
                         stallers.push((rc, st.clone()));
                     }
@@ -155,15 +161,41 @@ pub fn stall_outcome(c: &StallCase) -> Outcome {
                     Then::Hold => {}
                     Then::Close => {}
                     Then::Garbage => {
-                        // zeros never complete a valid greeting; after a complete greeting a
-                        // message frame is not a READY
-                        let g: Vec<u8> = if st.offset >= 64 { vec![0x00, 0x01, 0x41] } else { vec![0u8; 80] };
+                        // bytes that, whatever was sent before, can only end in a refusal: zeros
+                        // up to the end of the greeting (bad signature / version 0 / empty
+                        // mechanism, or - from offset 16 on - a valid greeting) followed by a
+                        // MESSAGE frame where READY is due; inside READY, zeros to the end of the
+                        // declared frame (empty command / empty name / corrupted Socket-Type)
+                        let k = st.offset.min(hs.len() - 1);
+                        let g: Vec<u8> = if k < 64 {
+                            let mut g = vec![0u8; 64 - k];
+                            g.extend_from_slice(&[0x00, 0x01, 0x41]);
+                            g
+                        } else {
+                            vec![0u8; hs.len() - k + 8]
+                        };
                         let _ = rc.write(&g).await;
+                        want_failed += 1;
+                    }
+                    Then::Invalid => {
+                        let mut g = refcodec::RefGreeting::valid_null();
+                        let mut ty = peer_type.to_string();
+                        let mut identity: Option<Vec<u8>> = None;
+                        match st.offset % 4 {
+                            0 => ty = "BOGUS".into(),
+                            1 => g.version = (2, 1),
+                            2 => g.mechanism = b"GSSAPI".to_vec(),
+                            _ => identity = Some(vec![b'i'; 256]),
+                        }
+                        let mut bytes = g.encode();
+                        bytes.extend_from_slice(&refcodec::encode_ready(&ty, identity.as_deref()));
+                        let _ = rc.write(&bytes).await;
                         want_failed += 1;
                     }
                 }
             }
             let mut kept: Vec<RawConn> = vec![];
+            let mut after: Option<RawConn> = None;
             for (rc, st) in stallers.into_iter() {
                 match st.then {
                     Then::Close => {
@@ -202,7 +234,7 @@ pub fn stall_outcome(c: &StallCase) -> Outcome {
                             fail!(f, format!("C20/{}/peer-set-disturbed-by-failed-handshakes", who), "a client that connected after the failed handshakes cannot exchange a message: {}", e);
                         }
                     }
-                    kept.push(rc);
+                    after = Some(rc);
                 }
                 other => fail!(f, format!("C20/{}/well-behaved-client-blocked-after-failed-handshakes", who), "{:?}", other.map(|r| r.map(|_| ()))),
             }
@@ -215,7 +247,53 @@ pub fn stall_outcome(c: &StallCase) -> Outcome {
             if !ok || accepted != want_accepted {
                 fail!(f, format!("C20/{}/accepted-events-differ-from-well-behaved-clients", who), "{} clients completed a handshake, the monitor reported {} Accepted events", want_accepted, accepted);
             }
+            // round-robin senders: the rotation is exactly the well-behaved clients - with the
+            // stallers that are still holding connected, 2n sends reach each of the n clients
+            // exactly twice and none fails
+            if matches!(kind, Kind::Push | Kind::Dealer) && f.is_empty() {
+                use zeromq::SocketSend;
+                let mut good: Vec<&mut RawConn> = vec![&mut est];
+                if let Some(d) = during.as_mut() {
+                    good.push(d);
+                }
+                if let Some(a) = after.as_mut() {
+                    good.push(a);
+                }
+                let n = good.len();
+                let mut failed_sends = 0;
+                for i in 0..2 * n {
+                    if tokio::time::timeout(LIMIT, s.send(crate::sim::to_msg(&[format!("fan-{}", i).into_bytes()]))).await.map(|r| r.is_err()).unwrap_or(true) {
+                        failed_sends += 1;
+                    }
+                }
+                // count the fan-out messages only (earlier exchanges may still have copies in flight)
+                let fan = |c: &RawConn| c.messages().iter().filter(|m| m.first().map(|t| t.starts_with(b"fan-")).unwrap_or(false)).count();
+                let start = std::time::Instant::now();
+                while start.elapsed() < Duration::from_millis(1500) && good.iter().map(|c| fan(c)).sum::<usize>() < 2 * n {
+                    for c in good.iter_mut() {
+                        let _ = c.read_some(Duration::from_millis(5)).await;
+                    }
+                }
+                let got: Vec<usize> = good.iter().map(|c| fan(c)).collect();
+                if failed_sends > 0 || got.iter().any(|g| *g != 2) {
+                    fail!(f, format!("C20/{}/rotation-includes-something-else-than-the-admitted-peers", who), "{} admitted peers, {} sends: {} failed, the peers received {:?} (expected 2 each); {} clients are still stalled mid-handshake", n, 2 * n, failed_sends, got, kept.len());
+                }
+            }
+            // a client that never completed its handshake has been sent nothing but handshake bytes
+            for (i, rc) in kept.iter_mut().enumerate() {
+                while let Some(Ok(n)) = rc.read_some(Duration::from_millis(10)).await {
+                    if n == 0 {
+                        break;
+                    }
+                }
+                let p = refcodec::parse_stream(&rc.inbuf, refcodec::Strictness::EMITTED_WITH_GREETING);
+                let msgs = p.items.iter().filter(|it| matches!(it, refcodec::RefItem::Message(_))).count();
+                if msgs > 0 {
+                    fail!(f, format!("C20/{}/application-message-sent-to-a-peer-that-never-completed-its-handshake", who), "stalled client #{} received {} message(s)", i, msgs);
+                }
+            }
             drop(kept);
+            drop(after);
             drop(during);
             drop(est);
             let _ = realnet::sock_close(s).await;
@@ -245,7 +323,7 @@ pub fn run(ctx: &Ctx) -> (Report, PropertyMeta) {
     for kind in &kinds {
         let hs_len = refcodec::handshake_bytes(kind.a_compatible_peer(), None).len();
         let offsets: Vec<usize> = match t {
-            Tier::Quick => vec![0, 1, 9, 10, 11, 12, 32, 63, 64, 65, hs_len - 1],
+            Tier::Quick => vec![0, 1, 9, 10, 11, 12, 13, 16, 32, 63, 64, 65, 66, 67, 72, 73, 85, hs_len - 2, hs_len - 1],
             Tier::Thorough => (0..hs_len).collect(),
         };
         for transport in [Transport::TcpV4, Transport::Ipc] {
@@ -253,17 +331,18 @@ pub fn run(ctx: &Ctx) -> (Report, PropertyMeta) {
                 for then in [Then::Hold, Then::Close] {
                     cases.push(StallCase { kind: *kind, transport, stallers: vec![Staller { offset: *o, then }] });
                 }
-                if *o <= 9 || *o == 64 {
-                    cases.push(StallCase { kind: *kind, transport, stallers: vec![Staller { offset: *o, then: Then::Garbage }] });
-                }
+                cases.push(StallCase { kind: *kind, transport, stallers: vec![Staller { offset: *o, then: Then::Garbage }] });
+            }
+            for v in 0..4 {
+                cases.push(StallCase { kind: *kind, transport, stallers: vec![Staller { offset: v, then: Then::Invalid }] });
             }
         }
     }
     let r = run_cases(ctx, "stall", &cases, stall_outcome);
     report.exhaustive_parts.push(format!(
-        "{} socket types x {{TCP, IPC}} x one staller at {} x {{hold, close, garbage where it cannot continue a handshake}}: {} cases",
+        "{} socket types x {{TCP, IPC}} x one staller at {} x {{hold, close, garbage}} + 4 complete-but-invalid handshakes: {} cases",
         kinds.len(),
-        if t == Tier::Quick { "offsets {0,1,9,10,11,12,32,63,64,65,last-1}" } else { "every byte offset of greeting+READY" },
+        if t == Tier::Quick { "19 offsets {0,1,9..13,16,32,63..67,72,73,85,last-2,last-1}" } else { "every byte offset of greeting+READY" },
         cases.len()
     ));
     report.merge(r);
@@ -280,10 +359,7 @@ pub fn run(ctx: &Ctx) -> (Report, PropertyMeta) {
             let stallers = (0..k)
                 .map(|_| {
                     let offset = s.below(hs_len);
-                    let mut then = s.pick(&[Then::Hold, Then::Hold, Then::Close, Then::Garbage]);
-                    if then == Then::Garbage && !(offset <= 9 || offset == 64) {
-                        then = Then::Close;
-                    }
+                    let then = s.pick(&[Then::Hold, Then::Hold, Then::Close, Then::Garbage, Then::Garbage, Then::Invalid]);
                     Staller { offset, then }
                 })
                 .collect();
@@ -304,7 +380,7 @@ pub fn run(ctx: &Ctx) -> (Report, PropertyMeta) {
 
     let meta = PropertyMeta {
         level: "fault_enumeration",
-        rule: "real bound sockets on TCP and IPC with a monitor installed; 1..4 raw clients send a prefix of a valid greeting+READY (enumerated offsets for one staller, random for several) and then hold, close, or send bytes that cannot continue a handshake; one well-behaved client is established before, one connects while the stallers are still connected, one afterwards. Oracle: both later clients complete the handshake and a message exchange, and the established peer keeps exchanging, while the stallers hold; no AcceptFailed is reported for a client that is merely slow; each handshake that failed (closed / garbage) produces exactly one AcceptFailed; the number of Accepted events equals the number of well-behaved clients, and a client connecting afterwards exchanges normally (peer set undisturbed). Non-trivial = at least one staller; distinct by case".into(),
+        rule: "real bound sockets on TCP and IPC with a monitor installed; 1..4 raw clients send a prefix of a valid greeting+READY (enumerated offsets for one staller, random for several) and then hold, close, or send bytes that cannot continue a handshake (at EVERY offset: zeros to the end of the greeting then a message frame where READY is due; inside READY zeros to the end of the declared frame), or send a complete but unacceptable handshake (unknown Socket-Type, ZMTP 2.1, unknown mechanism, 256-byte identity); one well-behaved client is established before, one connects while the stallers are still connected, one afterwards. Oracle: both later clients complete the handshake and a message exchange, and the established peer keeps exchanging, while the stallers hold; no AcceptFailed is reported for a client that is merely slow; each handshake that failed (closed / garbage) produces exactly one AcceptFailed; the number of Accepted events equals the number of well-behaved clients, a client connecting afterwards exchanges normally, PUSH/DEALER rotate over exactly the admitted clients (2n sends reach each of n clients twice while stallers are still connected), and a client that never completed its handshake is sent no application message (peer set undisturbed). Non-trivial = at least one staller; distinct by case".into(),
         assumptions: vec![
             "'never completes' is decided with a 5 s watchdog where a handshake needs ~1 ms; the runtime is single-threaded and otherwise idle".into(),
             "REQ sockets under test only complete handshakes (a message exchange needs a single peer)".into(),
